@@ -4,7 +4,7 @@ Rules shared by the scope/task properties (C03, C04, C05, C06, C07).
 import ast
 import dis
 
-from ..engine import Analysis, is_call_to, is_suspension, short, where_fn
+from ..engine import Analysis, is_call_to, is_suspension, short, where_fn, key_truth
 from ..model import AnalysisError
 from ..paths import SIGNALS, GENEXIT, CANCEL_TASK, CANCEL_SCOPE, CORE_INTERRUPT
 from ..types import Callee, Frame
@@ -23,6 +23,32 @@ CONDITION = 'usim._primitives.condition.Condition'
 def scope_receivers(an: Analysis):
     result = [SCOPE] + [qn for qn in an.p.subclasses(SCOPE)]
     return sorted(set(result), key=lambda q: (q != SCOPE, q))
+
+
+def check_await_children_progress(check, an: Analysis, rule: str):
+    """waiting for the children never spins: between two looks at the child list (each
+    finding a child still registered) the scope owner is suspended at least once -- a
+    child that is done but has not deregistered yet (cancelled before its first turn)
+    needs a turn of its own to do so"""
+    for recv in scope_receivers(an):
+        callee = an.callee(recv, '_await_children')
+        label = recv.rsplit('.', 1)[-1]
+        n_rounds, bad = 0, None
+        for path in an.paths(callee):
+            looks = [i for i, e in enumerate(path.events) if e.kind == 'test'
+                     and e.get('key') == ('truth', 'self._children')
+                     and key_truth(e) is True]
+            ends = looks[1:] + ([len(path.events)] if path.normal else [])
+            for start, stop in zip(looks, ends):
+                n_rounds += 1
+                if not path.must_suspended(start, stop):
+                    bad = bad or (path, start)
+        check.instance(rule, '_await_children[%s]:every-round-suspends' % label,
+                       bad is None and n_rounds > 0, where_fn(callee.fn),
+                       'a round that found children registered passes a suspension that '
+                       'must suspend before the list is looked at again (%d rounds on '
+                       'paths)' % n_rounds,
+                       path=rules.path_lines(*bad) if bad else None, analysed=n_rounds)
 
 
 def wrapper_callee(an: Analysis) -> Callee:
